@@ -185,17 +185,18 @@ class Potentials(Monitor):
         if ref is None:
             ctx.probes["c03_unreferenced_" + label] += 1
             return
-        expected = refenergy.finite_difference_pair(ref, c, velocity, separation)
-        if expected is None:
+        estimate = refenergy.finite_difference_pair(ref, c, velocity, separation)
+        if estimate is None:
             ctx.probes["c03_skipped_on_box_face"] += 1
             return
+        expected, fd_error = estimate
         # natural scale: the radial derivative times the speed (the directional derivative vanishes at x = 0)
         r = math.sqrt(sum(x * x for x in separation))
         radial = abs(ref.energy(r * (1.0 + 1e-6), c) - ref.energy(r * (1.0 - 1e-6), c)) / (2e-6 * r)
         scale = max(abs(expected), radial * math.sqrt(sum(v * v for v in velocity)))
         deviation = abs(result - expected)
         self._worst(type(ref).__name__, deviation / max(scale, 1e-300))
-        if deviation > 1e-6 * scale:
+        if deviation > 1e-6 * scale + 4.0 * fd_error:
             ctx.violation("C03", "derivative_differs_from_finite_difference_of_model_energy",
                           {"potential": label, "returned": result, "expected": expected,
                            "separation": list(separation), "velocity": list(velocity), "charges": list(args[2:])})
